@@ -94,3 +94,95 @@ Theorem C13_text_on_serialized_direct : forall fd back, float_oracle fd back -> 
     /\ (utf8_valid_b text = true -> forall r, direct_route r = true -> run_route back r ty text = TOk (OVal v')).
 Proof. exact serialized_direct. Qed.
 Print Assumptions C13_text_on_serialized_direct.
+
+(* the routes through toml::Value / toml::Table too, when no table key of the serialized tree spells the private
+   name (F14) — for all four text serializers, date-times and NaNs included *)
+From TV Require Import Proofs.C13TextTwin Proofs.C13TextSer.
+Theorem C13_text_on_serialized_value_first : forall fd back, float_oracle fd back -> forall r0 ty v out,
+  has_type v ty -> utf8_ty ty = true -> utf8_sv v = true ->
+  ser_text r0 ty v = SerdeData.Ok out -> tv_depth out <= LIMIT -> tunnel_free out = true ->
+  exists text v2,
+    ser_text_bytes fd r0 ty v = Some text /\ sval_eq v v2
+    /\ run_route back Ttval ty text = TOk (OVal v2) /\ run_route back Tttab ty text = TOk (OVal v2).
+Proof. exact serialized_value_first. Qed.
+Print Assumptions C13_text_on_serialized_value_first.
+
+(* the three tree-level facts behind it: sval_eq is transitive; toml::Value's visitor forgets the order of table
+   entries; Value::try_into does not see the payload of a NaN *)
+Theorem C13_sval_eq_trans : forall a b c, sval_eq a b -> sval_eq b c -> sval_eq a c.
+Proof. exact sval_eq_trans. Qed.
+Print Assumptions C13_sval_eq_trans.
+
+Theorem C13_value_visitor_any_order : forall x x' y,
+  tv_equiv x x' -> tunnel_free x = true -> to_toml_value x = Ok y -> exists y', to_toml_value x' = Ok y' /\ feq y y'.
+Proof. exact conv_equiv. Qed.
+Print Assumptions C13_value_visitor_any_order.
+
+Theorem C13_try_into_nan_payload : forall t y y' v, feq y y' -> tv_de t y = Ok v -> exists v', tv_de t y' = Ok v' /\ sval_eq v v'.
+Proof. exact tv_de_feq. Qed.
+Print Assumptions C13_try_into_nan_payload.
+
+(* ---- (c) what remains excluded ---------------------------------------------------------------------------------- *)
+Require Import String.
+Open Scope string_scope.
+Definition no_floats (f : fval) : N := 0%N.       (* `back` for texts without floats *)
+Definition no_fd (b : N) : fval := FNan false.    (* `fd` for values without floats *)
+Definition all_routes : list text_route := [Tt; Te; Tesl; Tedoc; Teim; Tefs; Ttval; Tttab].
+Definition answers (t : ty) (s : bytes) : list tres := map (fun r => run_route no_floats r t s) all_routes.
+
+(* F14 (private-datetime-key) ON SERIALIZED TEXT: struct S { m: BTreeMap<String, i32> } with the private name as a key.
+   toml::to_string writes `[m]` / `"$__toml_private_datetime" = 127`; the six direct routes return the value, the
+   two routes through toml::Value refuse (its visitor takes the table m for a date-time).  Observed on the
+   crates (harness `routes`): t e esl edoc eim efs = ok, tval ttab = err. *)
+Definition f14_ty : ty := TStruct (str "S") [(str "m", TMap TStr (TInt TI32))].
+Definition f14_val : sval := SRec [SMap [(SStr DT_FIELD, SInt 127)]].
+Definition f14_text : bytes := (str "[m]" ++ [x0a] ++ str """$__toml_private_datetime"" = 127" ++ [x0a])%list.
+Theorem C13_text_f14_refuted :
+  has_type f14_val f14_ty
+  /\ ser_text_bytes no_fd TomlString f14_ty f14_val = Some f14_text
+  /\ match ser_text TomlString f14_ty f14_val with SerdeData.Ok out => tunnel_free out | _ => true end = false
+  /\ answers f14_ty f14_text
+     = [TOk (OVal f14_val); TOk (OVal f14_val); TOk (OVal f14_val); TOk (OVal f14_val); TOk (OVal f14_val); TOk (OVal f14_val);
+        TDeErr; TDeErr].
+Proof. repeat split; vm_compute; reflexivity. Qed.
+Print Assumptions C13_text_f14_refuted.
+
+(* THE VERDICTS of the two families differ without F14 (Props/C13.v C13_ex_disagree_on_success_only, now on text):
+   a = [1, 2, 3] read as struct S { a: (i8, i8) } — toml_edit's deserializer ignores the rest of the array, toml::Value's
+   refuses.  They never succeed with different answers (C13_text_routes_agree).  Observed on the crates: the same. *)
+Definition arity_ty : ty := TStruct (str "S") [(str "a", TTuple [TInt TI8; TInt TI8])].
+Definition arity_text : bytes := (str "a = [1, 2, 3]" ++ [x0a])%list.
+Theorem C13_text_same_verdict_refuted :
+  answers arity_ty arity_text
+  = let ok := TOk (OVal (SRec [SSeq [SInt 1; SInt 2]])) in [ok; ok; ok; ok; ok; ok; TDeErr; TDeErr].
+Proof. vm_compute. reflexivity. Qed.
+Print Assumptions C13_text_same_verdict_refuted.
+
+(* F14 at the root, outside the model: `"$__toml_private_datetime" = "1979-05-27"` / `b = "x"` read as
+   BTreeMap<String, String>.  toml::from_str::<toml::Value> takes the ROOT for a date-time; what try_into makes of a
+   date-time for a map target is a path Model/De.v does not follow (TUnmodelled).  Observed on the crates: tval succeeds
+   with the one-entry map { "$__toml_private_datetime": "1979-05-27" } — the key b is lost — while the other seven routes
+   return both entries: the known class F14, no new finding. *)
+Definition root_text : bytes :=
+  (str """$__toml_private_datetime"" = ""1979-05-27""" ++ [x0a] ++ str "b = ""x""" ++ [x0a])%list.
+Example C13_text_f14_root :
+  let both := TOk (OVal (SMap [(SStr DT_FIELD, SStr (str "1979-05-27")); (SStr (str "b"), SStr (str "x"))])) in
+  answers (TMap TStr TStr) root_text = [both; both; both; both; both; both; TUnmodelled; both]
+  /\ match parse_document root_text with POk d => root_first_private d | _ => false end = true.
+Proof. split; vm_compute; reflexivity. Qed.
+
+(* invalid UTF-8: the bytes route answers with its own error; bytes that are no &str (here a lone 0xFF in a comment,
+   which the parser model does not look into) cannot be handed to the other routes *)
+Example C13_text_invalid_utf8 :
+  run_route no_floats Tesl (TMap TStr TStr) [x23; xff; x0a] = TUtf8Err /\ utf8_valid_b [x23; xff; x0a] = false.
+Proof. split; vm_compute; reflexivity. Qed.
+
+(* ---- non-vacuity: the example of Props/C13.v through text -------------------------------------------------------- *)
+From TV Require Props.C13.
+Definition ex_text13 : bytes := match ser_text_bytes no_fd TomlString C13.ex_ty C13.ex_val with Some t => t | None => [] end.
+Definition same (r : tres) (v : sval) : bool := match r with TOk (OVal v') => sval_beq v' v | _ => false end.
+Example C13_text_ex :
+  utf8_valid_b ex_text13 = true
+  /\ forallb (fun r => same (run_route no_floats r C13.ex_ty ex_text13) C13.ex_val) [Tt; Te; Tesl; Tedoc; Teim; Tefs] = true
+  /\ forallb (fun r => same (run_route no_floats r C13.ex_ty ex_text13) C13.ex_val_sorted) [Ttval; Tttab] = true.
+Proof. repeat split; vm_compute; reflexivity. Qed.
